@@ -39,7 +39,7 @@ var blockingLib = []string{
 }
 
 // library packages known not to block
-var nonBlockingPkgs = []string{"sort", "strings", "strconv", "fmt", "errors", "unicode/utf8", "math", "bytes", "sync/atomic", "reflect", "time", "encoding/json",
+var nonBlockingPkgs = []string{"sort", "slices", "maps", "cmp", "strings", "strconv", "fmt", "errors", "unicode/utf8", "math", "bytes", "sync/atomic", "reflect", "time", "encoding/json",
 	"github.com/golang/glog", "google.golang.org/protobuf", "google.golang.org/grpc/status", "google.golang.org/grpc/codes", "google.golang.org/grpc/peer", "bitbucket.org/creachadair/stringset", "context", "sync"}
 
 // implementers returns the module's non-test methods that an interface invoke may reach.
